@@ -385,6 +385,9 @@ func Run(t *testing.T, bind *Binding, spec *RunSpec) *model.Obs {
 			obs.PanicStk = res.PanicStk
 		}
 	})
+	if ctx.OverBudget {
+		obs.OverSteps = true
+	}
 	obs.Steps = ctx.Steps
 	obs.Picks = ch.Picks()
 	if !spec.Parallel {
